@@ -1,4 +1,7 @@
 # Per-property check configuration for bin/check.
+E2_ASSUME = [
+    "E2: every case of the stated finite alphabet is evaluated on the real functions (compiled from the current tree) and compared with an independent reference model written in Go; values outside the alphabet are outside",
+]
 E1_ASSUME = [
     "E1: the real f1 packages run after a syntactic rewrite (tools/rewrite) under the vrt cooperative scheduler; shim semantics of sync, sync/atomic, channels, context and time are a trusted base cross-checked by the litmus suite",
     "E1 sees synchronisation steps only: data races on plain memory are outside (advisory free-running -race pass only)",
@@ -32,6 +35,11 @@ PROPS = {
                                     "scenarios with a caller cancel, two workers or a config file use the delay-bounded policy",
                                     "'stops requesting on time' is checked on the default schedule only: under deviations the goroutine that turns the cancellation into the stop flag may itself be the slow one"],
     },
+    "C08": {
+        "parts": [{"harness": "c08", "budget": {"quick": 30, "thorough": 300}, "shards": {"quick": 4, "thorough": "ncpu"}}],
+        "rule": "cases = (successful, failed, dropped) in [0..8]^3 (thorough [0..20]^3) x error set x ignore-dropped x max-failures {0,1,2,5} x max-failures-rate {0,1,5,10,33,50,99,100}, plus totals 1..40 x failed 0..6 x rate 1..100; distinct non-trivial = distinct combinations of which clauses of the documented rule hold",
+        "assumptions": E2_ASSUME + ["the CLI layer (exit status = verdict) is covered by the whole-run harness of C06/C07 scenarios, not here"],
+    },
     "C18": {
         "parts": [{"harness": "c18", "budget": {"quick": 30, "thorough": 300}, "shards": {"quick": 1, "thorough": 1}}],
         "rule": "one execution = one complete interleaving + timer order of the scenario (schedule list x function duration x Restart/Stop/cancel script); distinct = distinct outcome signatures (status, violations, ordered event log)",
@@ -59,6 +67,9 @@ LEVELS = {
     "C05": {"engine": "vrt", "technique": "stateless model checking of whole Run.Do executions under a controlled scheduler with virtual time: deadlock detection and a virtual-time horizon decide termination over all schedules within a deviation bound",
             "text": "The real run.NewRun(...).Do runs on the rewritten stack in virtual time for a grid of trigger mode x ending (duration, trigger end, limit, caller cancel at chosen instants, failed setup) x body pattern (instant, sleeping, never finishing); in every schedule within the bound Do must return (deadlock / horizon otherwise), nothing may be unfinished, start or be reported after it returned without the completion timeout, and no thread may be left.",
             "note": E1_NOTE},
+    "C08": {"engine": "enum", "technique": "bounded-exhaustive enumeration of all count triples x error sets x option combinations over a stated alphabet, against the documented rule in exact integer arithmetic",
+            "text": "Every combination of (successful, failed, dropped) up to 20 each, error set, ignore-dropped, max-failures and max-failures-rate is fed through the real progress.Stats and run.Result and Failed()/Error() are compared with the documented rule evaluated in exact integer arithmetic; a panic is an outcome. Totals up to 40 with every rate 1..100 cover the non-integral percentages.",
+            "note": "Trusted base: the reference rule (5 lines), the Go compiler. Values outside the alphabet (counts > 40, rates > 100) are not explored."},
     "C18": {"engine": "vrt", "technique": "stateless model checking of the real raterun.Runner under a controlled scheduler with virtual time: all interleavings, select choices and same-instant timer orders up to a deviation bound",
             "text": "The real Runner runs in virtual time against scripted Restart/Stop/cancel sequences; every interleaving of the runner goroutine with the driver, every select choice among ready cases and every order of same-instant timers is executed (deviation bound per scenario in the evidence) and the ordered event log is checked: rate per schedule activation, argument, nothing executing or invoked after Stop returned, no thread or timer left.",
             "note": E1_NOTE},
